@@ -84,6 +84,22 @@ def cases(rng, tier):
         for st in ("a" + ch + "=b=c", ch + "=", "k=" + ch + "=", "a=b" + ch + "=c", "k" + ch):
             b = st.encode()
             out.append("TXTATTR 1 " + b.hex())
+    # character sequences that SOME syntax reads as an escape or a reference (master-file \DDD and \X, URL %XX, C and unicode
+    # escapes, entities, shell and template syntax): in keys and in values they are ordinary characters
+    snippets = ["\\065", "\\192.168.0.10\\public", "\\000", "\\255", "\\256", "\\0651", "C:\\2024\\065", "%41", "%00", "%zz", "&amp;", "&#65;", "\\x41", "\\u0041",
+                "\\n", "\\t", "^A", "$(x)", "${x}", "{{x}}", "%s", "\\\\", "\\\"", "0x41", "+", "a+b", "\\ ", "\\;", "\\=", "''", "`x`"]
+    for sn in snippets:
+        for m in ({"k": sn}, {"k": "a" + sn + "b"}, {sn.replace("=", ""): "v"}, {"a" + sn.replace("=", "") + "b": None}, {"k": sn + sn}):
+            if "" in m:
+                continue
+            toks = ["%x" % len(m)]
+            for k, v in m.items():
+                toks += [k.encode().hex()] + (["N"] if v is None else ["V", v.encode().hex() or "-"])
+            c = "ATTRMAP " + " ".join(toks)
+            INFO[c] = m
+            out.append(c)
+        out.append("TXTTEXT " + (sn * 3).encode().hex())
+        out.append("TXTATTR 1 " + ("k=" + sn).encode().hex())
     # keys that DNS-SD gives a meaning to (txtvers, ...) with absent, empty and non-empty values
     import attrgen
     for _ in range(800 if tier == "quick" else 8000):
